@@ -17,12 +17,15 @@ SHADOWED = [0]
 class Model:
     def __init__(self, field):
         self.fields = list(field.fields)
-        self.sizes = [f.region.mesh.npoints * f.dim for f in self.fields]
+        # fourth audit: sizes and components per point are those of the value arrays (the data the index addresses), not of the
+        # attributes the objects derive from them (Field.dim, mesh.npoints)
+        self.dims = [int(f.values.shape[1]) for f in self.fields]
+        self.sizes = [int(f.values.size) for f in self.fields]
         self.off = np.concatenate([[0], np.cumsum(self.sizes)[:-1]]).astype(int)
         self.n = int(sum(self.sizes))
 
     def g(self, f, p, i):
-        return int(self.off[f] + self.fields[f].dim * p + i)
+        return int(self.off[f] + self.dims[f] * p + i)
 
     def index_of(self, fld):
         for k, f in enumerate(self.fields):
@@ -38,24 +41,31 @@ class Model:
             for p, i in zip(P, I):
                 s.add(self.g(k, p, i))
         for k, f in enumerate(self.fields):
-            used = np.zeros(f.region.mesh.npoints, bool)
+            used = np.zeros(f.values.shape[0], bool)
             used[np.asarray(f.region.mesh.cells).ravel()] = True
             for p in np.where(~used)[0]:
-                for i in range(f.dim):
+                for i in range(self.dims[k]):
                     s.add(self.g(k, p, i))
         return np.array(sorted(s), dtype=int)
 
     def candidates(self, field, bounds):
         """dict g -> set of admissible prescribed values (one per selecting boundary; current value if none)."""
         cand = {}
+        self.shadowed = self.unshadowed = 0
         for b in bounds.values():
             k = self.index_of(b.field)
             P, I = np.nonzero(b.mask)
-            # the value the caller asked for (constructor argument / last update), not the attribute the object keeps
+            # the value the caller asked for (constructor argument / last update), not the attribute the object keeps: registered by
+            # the workload for its own boundaries and by the hooks on Boundary.__init__ / Boundary.update for every other boundary
+            # that is made while the monitors are attached (load-case internals, partition's "__empty__", the repository's tests);
+            # the attribute is the reference only for a boundary that was made before the monitors were attached (counted)
             r = REQUESTED.get(id(b))
             v = r[1] if (r is not None and r[0] is b) else b.value
             if r is not None and r[0] is b:
                 SHADOWED[0] += 1
+                self.shadowed += 1
+            else:
+                self.unshadowed += 1
             v = np.asarray(v, float) if isinstance(v, (list, tuple)) else v
             if isinstance(v, np.ndarray):
                 if v.size == len(P):
@@ -130,19 +140,39 @@ def check_apply(run, field, bounds, dof0, ext0, label, before):
                  "got %g, admissible %s)" % (label, bad[0][0], bad[0][1], bad[0][2]), {"bad": bad[:6]})
     else:
         run.ok(mon, unit="apply:alignment", config=label)
+        # (fourth audit) must-reach: the admissible values of a whole dictionary came from the requested values, none from Boundary.value
+        if M.shadowed and not M.unshadowed:
+            run.units["apply:requested-values"] += 1
+        elif M.unshadowed:
+            run.units["apply:values-read-from-boundary"] += 1
+
+
+# The documented defaults of Boundary(field, name="default", fx=np.isnan, fy=np.isnan, fz=np.isnan, value=0.0, skip=None, mask=None,
+# mode="or") as the class docstring states them ("default is np.isnan" = no predicate on that axis, "default is None" = nothing skipped /
+# no mask, 'default is "or"'). Fourth audit: the bound arguments of the hook are completed with the defaults of the signature under test,
+# so a changed default (fz=np.isinf: every mode="and" selection on a 3D mesh is empty) was its own reference. The selection is evaluated
+# from what the caller passed (Arguments.given) and from this table for the rest.
+DOC_DEFAULTS = {"fx": np.isnan, "fy": np.isnan, "fz": np.isnan, "value": 0.0, "skip": None, "mask": None, "mode": "or"}
+
+
+def documented(a, name):
+    """The caller's value of a Boundary argument, the documented default if the caller did not pass it."""
+    if isinstance(a, attach.Arguments):
+        return a.documented(name, DOC_DEFAULTS[name])
+    return a.get(name, DOC_DEFAULTS[name])  # a plain dict of the keywords a workload passed
 
 
 def expected_mask(b, a):
     """Independent evaluation of a Boundary's selection from its constructor arguments and the mesh coordinates."""
     f = a["field"]
     X = f.region.mesh.points
-    npts, md, fd = X.shape[0], X.shape[1], f.dim
-    if a.get("mask") is not None:
+    npts, md, fd = X.shape[0], X.shape[1], f.values.shape[1]
+    skip = documented(a, "skip")
+    if documented(a, "mask") is not None:
         m = np.asarray(a["mask"]).reshape(npts, -1).copy()
         if m.shape[1] == 1:
             m = np.tile(m, (1, fd))
         # documented: "If a mask is passed, fx, fy and fz are ignored. However, skip is still applied on the mask."
-        skip = a.get("skip")
         if skip is not None:
             for i in range(fd):
                 if i < len(skip) and skip[i]:
@@ -150,23 +180,35 @@ def expected_mask(b, a):
         return m
     sel = []
     for ax, name in enumerate(("fx", "fy", "fz")[:md]):
-        fx = a.get(name, np.isnan)
+        fx = documented(a, name)
         if fx is np.isnan:
             continue
         sel.append(np.asarray(fx(X[:, ax]) if callable(fx) else np.isclose(X[:, ax], fx), dtype=bool))
     if not sel:
         pts = np.zeros(npts, bool)
-    elif a.get("mode", "or") == "and":
+    elif documented(a, "mode") == "and":
         pts = np.logical_and.reduce(sel)
     else:
         pts = np.logical_or.reduce(sel)
     m = np.tile(pts.reshape(-1, 1), (1, fd))
-    skip = a.get("skip")
     if skip is not None:
         for i in range(fd):
             if i < len(skip) and skip[i]:
                 m[:, i] = False
     return m
+
+
+def selection_label(a):
+    f = a["field"]
+    feat = "mask" if documented(a, "mask") is not None else "+".join(n for n in ("fx", "fy", "fz") if documented(a, n) is not np.isnan) or "none"
+    return "field-dim=%d mesh-dim=%d select=%s mode=%s" % (f.dim, f.region.mesh.dim, feat, documented(a, "mode"))
+
+
+def register_requested(b, value, copy=False):
+    """Shadow of the value a caller asked a boundary to prescribe."""
+    REQUESTED[id(b)] = (b, np.array(value, float, copy=True) if (copy and isinstance(value, np.ndarray)) else value)
+    if len(REQUESTED) > 5000:
+        REQUESTED.pop(next(iter(REQUESTED)))
 
 
 def attach_boundary_hook(run):
@@ -175,25 +217,41 @@ def attach_boundary_hook(run):
 
     def post(obj, a):
         run.seen("dof.boundary")
+        if "field" in a:
+            # the value the caller of the constructor asked for (the documented 0.0 if none was passed), kept for dof.apply: the
+            # caller's own object, so that an array the caller fills afterwards is followed as the library follows it
+            register_requested(obj, documented(a, "value"))
         try:
             exp = expected_mask(obj, a)
         except Exception as exc:
             run.skip("dof.boundary", "arguments not interpretable: " + type(exc).__name__)
             return
         f = a["field"]
-        feat = "mask" if a.get("mask") is not None else "+".join(n for n in ("fx", "fy", "fz") if a.get(n, np.isnan) is not np.isnan) or "none"
-        label = "field-dim=%d mesh-dim=%d select=%s mode=%s" % (f.dim, f.region.mesh.dim, feat, a.get("mode", "or"))
+        label = selection_label(a)
         ok = obj.mask.shape == exp.shape and np.array_equal(obj.mask, exp)
-        dof_ref = (f.dim * np.arange(exp.shape[0]).reshape(-1, 1) + np.arange(f.dim))[exp]
+        dof_ref = (exp.shape[1] * np.arange(exp.shape[0]).reshape(-1, 1) + np.arange(exp.shape[1]))[exp]
         ok = ok and np.array_equal(np.asarray(obj.dof), dof_ref) and np.array_equal(np.asarray(obj.points), np.where(exp.any(1))[0])
         if ok:
             run.ok("dof.boundary", unit="boundary:selection", config=label)
+            # must-reach: each argument of the selection was left to its documented default in some judged construction (an axis that
+            # is not given matters in mode="and": a sentinel that is not recognised empties the selection)
+            axes = ("fx", "fy", "fz")[: f.region.mesh.dim]
+            for n in (axes + ("skip", "mode") if "mask" not in a.given else ("skip",)):
+                if n not in a.given:
+                    run.units["boundary:default:" + n] += 1
+            if "mask" not in a.given and documented(a, "mode") == "and" and 0 < sum(n in a.given for n in axes) < len(axes):
+                run.units["boundary:default:unset-axis-in-mode-and"] += 1
         else:
             run.fail("dof.boundary", "api=Boundary %s clause=selection" % label,
                      "Boundary selects other unknowns than its coordinate predicates / masks / skip tuple denote (%s)" % label,
                      {"selected": int(np.sum(obj.mask)), "expected": int(np.sum(exp))})
 
+    def post_update(obj, args, kwargs, ctx, result, exc):
+        if exc is None and (args or "value" in kwargs):
+            register_requested(obj, args[0] if args else kwargs["value"])
+
     attach.wrap_init(fem.Boundary, post)
+    attach.wrap_method(fem.Boundary, "update", post=post_update)
 
 
 def attach_monitors(run):
@@ -368,8 +426,12 @@ def random_bounds(rng, field, mesh, tag, force=None, variant=0):
             kw[names[ax]] = float(lo)
         if "value" not in kw:
             kw["value"] = float(np.round(rng.standard_normal(), 3)) if rng.integers(0, 2) else 0.0
+            if k == 0 and force is not None and variant % 3 == 0:
+                # scheduled: no value is passed at all - the documented default (0.0) is what the caller asks for then
+                del kw["value"]
+                feats.append("default-value")
         b = fem.Boundary(f, **kw)
-        requested = kw["value"]
+        requested = kw.get("value", 0.0)
         if style == "array-full":
             requested = rng.standard_normal((len(b.points), dim))
             b = fem.Boundary(f, **{**kw, "value": requested})
@@ -377,9 +439,7 @@ def random_bounds(rng, field, mesh, tag, force=None, variant=0):
             # the value is replaced after construction (what a ramped step does), scalar -> per-component array or other scalar
             requested = rng.standard_normal(dim) if rng.integers(0, 2) else float(np.round(rng.standard_normal(), 3))
             b.update(requested)
-        REQUESTED[id(b)] = (b, np.array(requested, float, copy=True) if isinstance(requested, np.ndarray) else requested)
-        if len(REQUESTED) > 5000:
-            REQUESTED.pop(next(iter(REQUESTED)))
+        register_requested(b, requested, copy=True)
         bounds["%s%d" % (tag, k)] = b
         feats.append(style)
     return bounds, feats
@@ -415,6 +475,80 @@ def case_partition(kind, rep):
     return fn
 
 
+# documented order of the positional arguments of Boundary after the field
+BOUNDARY_ORDER = ("name", "fx", "fy", "fz", "value", "skip", "mask", "mode")
+
+
+def case_defaults(kind):
+    """(fourth audit) Boundaries that leave arguments to their documented defaults, in keyword and in positional form. The reference is
+    evaluated from the arguments this workload passes and the documented defaults (DOC_DEFAULTS) - neither from the object nor from the
+    signature under test; the dictionary of all of them then runs through the monitored partition / apply with the documented default
+    value 0.0 as the requested value where none was passed."""
+    def fn(run):
+        import felupe as fem
+        rng = rng_for(run.seed, "C08", "defaults", kind)
+        field, mesh = make_container(rng, kind)
+        for f in field.fields:
+            f.values[:] = rng.standard_normal(f.values.shape)
+        attach_monitors(run)
+        mon = "dof.boundary"
+        try:
+            for fi, f in enumerate(field.fields):
+                X = f.region.mesh.points
+                md, dim = X.shape[1], f.values.shape[1]
+                lo, hi = X.min(axis=0), X.max(axis=0)
+                mid = lo + 0.6 * (hi - lo)
+                names = ("fx", "fy", "fz")[:md]
+                calls = [("nothing", (), {})]
+                for ax in range(md):
+                    ax2 = (ax + 1) % md
+                    calls.append(("one-axis", (), {names[ax]: float(lo[ax])}))
+                    calls.append(("one-axis+value", (), {names[ax]: (lambda x, t=mid[ax]: x > t), "value": float(np.round(rng.standard_normal(), 3))}))
+                    # mode="and" with the other axes not given (on a 3D mesh: one axis is left to its default)
+                    calls.append(("and", (), {names[ax]: float(lo[ax]), names[ax2]: (lambda x, t=mid[ax2]: x < t), "mode": "and"}))
+                    # two predicates and no mode: the documented default is their union
+                    calls.append(("two-axes-no-mode", (), {names[ax]: float(hi[ax]), names[ax2]: (lambda x, t=mid[ax2]: x > t)}))
+                    calls.append(("and-one-axis", (), {names[ax]: float(hi[ax]), "mode": "and"}))
+                if dim > 1:
+                    calls.append(("skip", (), {names[0]: float(hi[0]), "skip": (True,) + (False,) * (dim - 1)}))
+                    calls.append(("mask+skip", (), {"mask": rng.uniform(size=X.shape[0]) < 0.3, "skip": (False, True)}))
+                calls.append(("mask", (), {"mask": rng.uniform(size=(X.shape[0], dim)) < 0.3}))
+                calls.append(("mask+value", (), {"mask": rng.uniform(size=X.shape[0]) < 0.3, "value": rng.standard_normal(dim)}))
+                # positional forms in the documented order (field, name, fx, fy, fz, value, skip, mask, mode)
+                calls.append(("positional-fx", ("left", float(lo[0])), {}))
+                calls.append(("positional-fx-fy", ("corner", float(lo[0]), (lambda y, t=mid[1]: y < t)), {"mode": "and"}))
+                calls.append(("positional-value", ("top", np.isnan, float(hi[1]), np.isnan, float(np.round(rng.standard_normal(), 3))), {}))
+                bounds = {}
+                for n_, (tag, args, kw) in enumerate(calls):
+                    mine = dict(zip(BOUNDARY_ORDER, args), **kw)
+                    mine["field"] = f
+                    b = fem.Boundary(f, *args, **kw)
+                    register_requested(b, mine.get("value", DOC_DEFAULTS["value"]), copy=True)
+                    exp = expected_mask(b, mine)
+                    label = "%s field=%d dim=%d mesh-dim=%d call=%s" % (kind, fi, dim, md, tag)
+                    if np.asarray(b.mask).shape == exp.shape and np.array_equal(b.mask, exp):
+                        run.ok(mon, unit="defaults:" + tag, config=("defaults", kind, fi, tag))
+                    else:
+                        run.fail(mon, "api=Boundary call=%s mesh-dim=%d clause=documented-defaults" % (tag, md),
+                                 "Boundary(%s): the selection differs from the one the passed arguments and the documented defaults of the "
+                                 "others denote" % label, {"selected": int(np.sum(b.mask)), "expected": int(np.sum(exp))})
+                    bounds["%s-%d" % (tag, n_)] = b
+                run._label = "defaults/%s/field-%d" % (kind, fi)
+                for order in (list(bounds), list(bounds)[::-1]):
+                    bd = {k: bounds[k] for k in order}
+                    dof0, dof1 = fem.dof.partition(field, bd)
+                    fem.dof.apply(field, bd, dof0)
+                    fem.dof.apply(field, bd)
+                # each of them alone (no other boundary's value is admissible for its unknowns)
+                for k_, b in bounds.items():
+                    run._label = "defaults/%s/field-%d/%s" % (kind, fi, k_.rsplit("-", 1)[0])
+                    dof0, dof1 = fem.dof.partition(field, {k_: b})
+                    fem.dof.apply(field, {k_: b}, dof0)
+        finally:
+            attach.detach_all()
+    return fn
+
+
 def case_numbering(kind):
     def fn(run):
         import felupe as fem
@@ -436,6 +570,7 @@ def case_numbering(kind):
             for p in range(f.values.shape[0]):
                 for i in range(f.dim):
                     ref[M.g(k, p, i)] = f.values[p, i]
+        layout = ref.copy()  # the unknowns in global numbering, written by the loop above (reference of solve.partition below)
         run.compare(mon, "api=values clause=layout", maxabs(x - ref) if x.shape == ref.shape else np.inf, 0.0,
                     "math.values(field) is not the consecutive (field, point, component) layout", unit="values",
                     config=(kind, "values"))
@@ -580,7 +715,8 @@ def case_numbering(kind):
         dof0, dof1 = np.sort(perm[:n0]), np.sort(perm[n0:])
         u, u0, K11, K10, d1, d0, r1 = fem.solve.partition(field, K, dof1, dof0, rvec)
         Kd = K.toarray()
-        ok = (np.array_equal(u, fem.math.values(field)) and np.array_equal(u0, fem.math.values(field)[dof0])
+        # (fourth audit) u and u0 against the loop-built layout vector, not against the library's own value extraction
+        ok = (np.array_equal(u, layout) and np.array_equal(u0, layout[dof0])
               and np.array_equal(K11.toarray(), Kd[np.ix_(dof1, dof1)]) and np.array_equal(K10.toarray(), Kd[np.ix_(dof1, dof0)])
               and np.array_equal(r1, rvec[dof1]))
         if ok:
@@ -694,7 +830,7 @@ def case_loadcases(rep):
                 if offset:
                     run.units["loadcase:offset-body"] += 1
                 calls = []
-                for _ in range(4 if run.tier == "quick" else 12):
+                for it in range(4 if run.tier == "quick" else 12):
                     axis = int(rng.integers(0, dim))
                     symt = tuple(bool(b) for b in rng.integers(0, 2, 3))
                     calls.append(("uniaxial", dict(axis=axis, clamped=bool(rng.integers(0, 2)), move=float(rng.uniform(-0.5, 0.5)),
@@ -719,6 +855,9 @@ def case_loadcases(rep):
                                                 sym=bool(rng.integers(0, 2)))))
                     calls.append(("symmetry", dict(axes=symt, x=float(planes[0][1]), y=float(planes[1][-1]), z=float(planes[-1][1]) if dim == 3 else 0.0)))
                     run.units["loadcase:position-arguments"] += 1
+                    if it == 0:
+                        # scheduled: no axis at all - nothing but the unknowns of points without cells is prescribed then
+                        calls.append(("symmetry", dict(axes=(False, False, False), x=float(planes[0][1]), y=float(planes[1][-1]), z=float(planes[-1][1]) if dim == 3 else 0.0)))
                 if offset:
                     keep = []
                     for name, kw in calls:
@@ -732,8 +871,10 @@ def case_loadcases(rep):
                     run._label = "loadcase:%s:%dd" % (name, dim)
                     if name == "symmetry":
                         bounds = fem.dof.symmetry(f, **kw)
-                        if not bounds:
-                            continue
+                        # (fourth audit) an empty dictionary is judged like any other: whether there is nothing to constrain is
+                        # decided by the caller's axes in the model below, not by what came back
+                        if not any(kw["axes"][: f.dim]):
+                            run.units["loadcase:symmetry:no-axis"] += 1
                         dof0, dof1 = fem.dof.partition(field, bounds)
                         ext0 = fem.dof.apply(field, bounds, dof0)
                     else:
@@ -783,6 +924,8 @@ def cases(tier, seed):
         out.append(("numbering:" + kind, case_numbering(kind)))
     for rep in range(2 if tier == "quick" else 6):
         out.append(("loadcases:%d" % rep, case_loadcases(rep)))
+    for kind in ("hex-mixed3", "quad-vector+scalar") if tier == "quick" else KINDS:
+        out.append(("defaults:" + kind, case_defaults(kind)))
     return out
 
 
@@ -790,14 +933,23 @@ SPEC = {
     "required_units": ["partition:disjoint", "partition:cover", "partition:dof0", "boundary:selection", "apply:alignment", "values", "values:column-major-storage", "container+",
                        "container-", "container+=", "container-=", "container+list", "operators:container:vector", "operators:container:list", "operators:container:container", "operators:field:array", "operators:field:field", "getitem", "single-entry-assembly",
                        "solve.partition", "points-without-cells", "fields:2", "fields:3", "loadcase:symmetry",
-                       "loadcase:uniaxial", "loadcase:biaxial", "loadcase:shear", "loadcase:uniaxial:values", "loadcase:mixed-container", "loadcase:offset-body", "loadcase:explicit-zero-positions"]
+                       "loadcase:uniaxial", "loadcase:biaxial", "loadcase:shear", "loadcase:uniaxial:values", "loadcase:mixed-container", "loadcase:offset-body", "loadcase:explicit-zero-positions",
+                       # fourth audit: arguments left to their documented defaults, requested values as the reference of apply
+                       "boundary:default:fx", "boundary:default:fy", "boundary:default:fz", "boundary:default:skip", "boundary:default:mode",
+                       "boundary:default:unset-axis-in-mode-and", "apply:requested-values", "loadcase:symmetry:no-axis", "feature:default-value"]
+    + ["defaults:" + s for s in ("nothing", "one-axis", "one-axis+value", "and", "two-axes-no-mode", "and-one-axis", "skip", "mask+skip", "mask", "mask+value",
+                                 "positional-fx", "positional-fx-fy", "positional-value")]
     + ["feature:" + s for s in ("float", "callable", "and", "skip", "pointmask", "dofmask", "array-dim", "array-full", "or2", "three", "array-skip", "mask-skip", "dofmask-skip", "update", "short-skip", "float:exact", "float:within-tolerance")],
     "rule": ("7 container kinds (1..3 fields, constant/linear/disconnected duals, scalar+vector, points without cells) x random "
              "dictionaries of 1..4 possibly overlapping boundaries (coordinate floats/callables, and/or, skip tuples, point and dof "
              "masks, scalar/array values, both insertion orders) judged by post-conditions on dof.partition/apply against the "
              "numbering model g(f,p,i); load cases with random axis/sym/clamped arguments in 2D and 3D vs the documented planes "
-             "and components; a configuration is distinct by (container kind, boundary features) or (load case, dim, arguments)"),
+             "and components; boundaries that leave arguments to their documented defaults (keyword and positional calls) vs the "
+             "selection evaluated from the passed arguments and the documented defaults; "
+             "a configuration is distinct by (container kind, boundary features) or (load case, dim, arguments)"),
     "assumptions": ["for an unknown selected by several boundaries the value of any of them is accepted",
-                    "load-case magnitudes: the documented displacement values (move / +-moves) on their planes"],
+                    "load-case magnitudes: the documented displacement values (move / +-moves) on their planes",
+                    "a Boundary argument the caller does not pass has the default the class docstring states (no predicate on that "
+                    "axis, nothing skipped, no mask, mode 'or', value 0.0); np.isnan passed explicitly means the same"],
     "jobs": {"quick": 6, "thorough": 12},
 }
